@@ -259,6 +259,157 @@ theorem live_le_limit_of_serial_spawns {limit nd : Nat} {evs : List Event} {s : 
   have := running_le_live s
   omega
 
+/-! ## 4. Progress (enabledness and witness schedules; no fairness operator) -/
+
+/-- **the retry loop terminates once any worker parks**: with a worker parked in `recv`, the next turn of
+`while let Err(e) = pool.dispatch(closure) { closure = e.0; yield_now() }` is accepted — the closure goes
+to the longest-waiting worker and `dispatch` returns `Ok`. -/
+theorem retry_succeeds_once_a_worker_parks {s : State} {d j w : Nat} {rest : List Nat} (hd : d < s.nd)
+    (hr : s.disp d = .refused j) (hw : s.waiting = w :: rest) :
+    ∃ s', run? s [.retry d, .trySend d] = some s' ∧ s'.disp d = .idle ∧ s'.wrk w = .handed j
+      ∧ s'.waiting = rest := by
+  apply Exists.intro
+  refine ⟨?_, ?_⟩
+  · simp [run?, step?, doRetry, doTrySend, hd, hr, hw]
+    rfl
+  · simp
+
+/-- … and that worker then runs it -/
+theorem handed_job_starts {s : State} {w j : Nat} (hw : w < s.nw) (hh : s.wrk w = .handed j) :
+    ∃ s', step? s (.wake w) = some s' ∧ s'.wrk w = .running j ∧ s'.ran = s.ran ++ [(j, w)] := by
+  apply Exists.intro
+  refine ⟨?_, ?_⟩
+  · simp [step?, doWake, hw, hh]
+    rfl
+  · simp
+
+/-- a sender blocked in the rendezvous `send` is served by the next worker that enters `recv` -/
+theorem blocked_sender_served {s : State} {w d j : Nat} {rest : List (Nat × Nat)} (hw : w < s.nw)
+    (hr : s.wrk w = .ready) (hq : s.sendq = (d, j) :: rest) :
+    ∃ s', step? s (.recv w) = some s' ∧ s'.wrk w = .running j ∧ s'.disp d = .idle ∧ s'.sendq = rest := by
+  apply Exists.intro
+  refine ⟨?_, ?_⟩
+  · simp [step?, doRecv, hw, hr, hq]
+    rfl
+  · simp
+
+/-- **after all workers retired a later dispatch spawns again**: no pool thread left (all exited after
+their idle timeout), nobody stuck in the channel, `thread_limit >= 1`: the next `dispatch` passes the limit
+check, spawns a thread, and that thread runs the job. -/
+theorem respawn_after_retirement {limit nd : Nat} {s : State} (h : Reach limit nd false s) (hl : 1 ≤ limit)
+    {d : Nat} (hd : d < s.nd) (hidle : s.disp d = .idle) (hall : ∀ w, w < s.nw → s.wrk w = .exited)
+    (hq : s.sendq = []) (k : Kind) :
+    ∃ s', run? s [.submit d k, .trySend d, .load d, .spawn d, .send d, .count s.nw, .recv s.nw] = some s'
+      ∧ s'.wrk s.nw = .running s.njobs ∧ s'.disp d = .idle ∧ s'.nw = s.nw + 1 ∧ live s' = 1 := by
+  have hI := reach_inv h
+  obtain ⟨hlim, hres, _⟩ := reach_static h
+  have hwait : s.waiting = [] := by
+    cases hw : s.waiting with
+    | nil => rfl
+    | cons a l =>
+      obtain ⟨h1, h2⟩ := hI.wait_parked a (by rw [hw]; simp)
+      rw [hall a h1] at h2; cases h2
+  have hc : s.counter = 0 := by
+    rw [hI.counter_raw hres]
+    exact cnt_zero_of _ _ _ (fun i hi => by rw [hall i hi]; rfl)
+  have hl' : ¬ s.limit = 0 := by omega
+  have hl'' : ¬ s.limit ≤ 0 := by omega
+  have hlive0 : cnt s.wrk WState.alive s.nw = 0 := cnt_zero_of _ _ _ (fun i hi => by rw [hall i hi]; rfl)
+  apply Exists.intro
+  refine ⟨?_, ?_⟩
+  · simp [run?, step?, doSubmit, doTrySend, doLoad, doSpawn, doSend, doCount, doRecv, hd, hidle, hwait, hc, hl',
+      hl'', hres, hq, upd]
+    rfl
+  · refine ⟨by simp [upd], by simp [upd], rfl, ?_⟩
+    show cnt _ WState.alive (s.nw + 1) = 1
+    rw [cnt_succ]
+    have : cnt (upd (upd (upd s.wrk s.nw .starting) s.nw .ready) s.nw (.running s.njobs)) WState.alive s.nw
+        = cnt s.wrk WState.alive s.nw := by
+      rw [cnt_upd_ge _ _ _ (Nat.le_refl _), cnt_upd_ge _ _ _ (Nat.le_refl _), cnt_upd_ge _ _ _ (Nat.le_refl _)]
+    simp only [upd_same]
+    rw [this, hlive0]
+    rfl
+
+/-- **no stranding without timers and crashes**: on a schedule without idle timeouts and without jobs that
+panic uncaught, every dispatcher between `thread::spawn` and the end of its rendezvous `send` is matched
+by a distinct worker that will enter `recv` again; in particular, whenever a sender is blocked some
+worker step (`count`, `recv`, `wake`, `finish`) is enabled. (F170 is exactly the failure of this
+statement once `timeout` events are allowed: `Cex.C17.stranded_dispatch_counterexample`.) -/
+theorem no_stranding_without_timers_and_crashes {limit nd : Nat} {reserve : Bool} {evs : List Event} {s : State}
+    (hb : ∀ e, e ∈ evs → Benign e = true) (h : run? (init limit nd reserve) evs = some s) :
+    pendingSends s ≤ cnt s.wrk WState.willRecv s.nw ∧
+    (s.sendq ≠ [] → ∃ w, w < s.nw ∧
+      ((step? s (.count w)).isSome ∨ (step? s (.recv w)).isSome ∨ (step? s (.wake w)).isSome
+        ∨ (step? s (.finish w)).isSome)) := by
+  have hI0 := inv_init limit nd reserve
+  have hp0 : pendingSends (init limit nd reserve) ≤ cnt (init limit nd reserve).wrk WState.willRecv (init limit nd reserve).nw := by
+    have : cnt (fun _ : Nat => DState.idle) DState.isSending nd = 0 := cnt_zero_of _ _ _ (fun _ _ => rfl)
+    simp [pendingSends, init, this]
+  have hp := pending_run hI0 (by intro j; simp [init]) hb hp0 h
+  refine ⟨hp, ?_⟩
+  intro hne
+  have hI := inv_run hI0 h
+  have hpos : 1 ≤ cnt s.wrk WState.willRecv s.nw := by
+    have : 1 ≤ s.sendq.length := by
+      cases hq : s.sendq with
+      | nil => exact absurd hq hne
+      | cons a l => simp
+    unfold pendingSends at hp
+    omega
+  obtain ⟨w, hw, hwr⟩ := exists_of_cnt_pos _ _ _ hpos
+  refine ⟨w, hw, ?_⟩
+  cases hs : s.wrk w with
+  | starting => left; cases hr : s.reserve <;> simp [step?, doCount, hw, hs, hr]
+  | ready =>
+    right; left
+    cases hq : s.sendq with
+    | nil => exact absurd hq hne
+    | cons a l => obtain ⟨d, j⟩ := a; simp [step?, doRecv, hw, hs, hq]
+  | parked =>
+    have := hI.chan (by intro he; have := hI.parked_wait w hw hs; rw [he] at this; cases this)
+    exact absurd this hne
+  | handed j => right; right; left; simp [step?, doWake, hw, hs]
+  | running j =>
+    right; right; right
+    by_cases hk : s.kind j = .raw <;> simp [step?, doFinish, hw, hs, hk]
+  | leaving => rw [hs] at hwr; simp [WState.willRecv] at hwr
+  | exited => rw [hs] at hwr; simp [WState.willRecv] at hwr
+
+/-- the scheduler the driver uses for the forced single-dispatcher cases takes model steps only -/
+theorem quiesce_is_a_schedule (fuel : Nat) (s : State) : run? s (quiesce fuel s).1 = some (quiesce fuel s).2 :=
+  quiesce_valid fuel s
+
+/-! ## 5. The trace acceptor run on recorded histories is sound for the model -/
+
+/-- **Every schedule projects to an accepted history**: the observable history (`call`, `retOk`, `retBusy`,
+`retPanic`, `begin`, `fin`) of any interleaving is accepted by `Spec.step`, the acceptor the driver runs on
+the histories recorded from the real pool — so a rejected real history is a behaviour the model does not
+have.  What the acceptor enforces: a job starts only inside or after an accepted `dispatch`, at most once,
+on one thread at a time; a refused job was not started and `limit` other calls were accepted or are in
+progress (needed for `counter >= thread_limit`); `fin` matches `begin`. -/
+theorem history_accepted {limit nd : Nat} {reserve : Bool} {evs : List Event} {s : State}
+    (h : run? (init limit nd reserve) evs = some s) :
+    ∃ t, Spec.runObs (Spec.sinit limit) (trace (init limit nd reserve) evs) = some t ∧ Sim s t :=
+  sim_run (inv_init _ _ _) (sim_init _ _ _) h
+
+/-- what the accepted state says about the jobs: an accepted, finished job is settled; a job whose last
+`dispatch` was refused is settled as long as the caller keeps it -/
+theorem accepted_state_tracks_running {limit nd : Nat} {reserve : Bool} {evs : List Event} {s : State}
+    (h : run? (init limit nd reserve) evs = some s) :
+    ∃ t, Spec.runObs (Spec.sinit limit) (trace (init limit nd reserve) evs) = some t ∧
+      (∀ w j, w < s.nw → s.wrk w = .running j → t.run j = .running w ∧ t.wjob w = some j) ∧
+      (∀ d j, d < s.nd → s.disp d = .refused j → t.phase j = .busy d ∧ t.run j = .notRun) := by
+  obtain ⟨t, ht, hS⟩ := history_accepted h
+  refine ⟨t, ht, ?_, ?_⟩
+  · intro w j hw hr
+    have := hS.wok w hw
+    rw [hr] at this
+    exact this
+  · intro d j hd hr
+    have := hS.dok d hd
+    rw [hr] at this
+    exact this.2
+
 /-! ## non-vacuity -/
 
 /-- a schedule in which two jobs are accepted, run and delivered (one by `try_send` to the parked worker) -/
@@ -266,6 +417,23 @@ example : ∃ s, run? (init 1 1 false)
     [.submit 0 .value, .trySend 0, .load 0, .spawn 0, .send 0, .count 0, .recv 0, .finish 0, .recv 0,
      .submit 0 .caught, .trySend 0, .wake 0, .finish 0, .reap 0, .reap 0] = some s
     ∧ s.delivered.length = 2 ∧ ranCount s 0 = 1 ∧ ranCount s 1 = 1 := by
+  refine ⟨_, rfl, ?_⟩; decide
+
+/-- the two-dispatcher overshoot schedule (F10) is a schedule of the code as it is; its history is accepted -/
+example : (Spec.runObs (Spec.sinit 1) (trace (init 1 2 false)
+    [.submit 0 .value, .submit 1 .value, .trySend 0, .trySend 1, .load 0, .load 1,
+     .spawn 0, .spawn 1, .send 0, .send 1, .count 0, .count 1, .recv 0, .recv 1])).map (·.maxrun) = some 2 := by
+  decide
+
+/-- a benign schedule (hypothesis of `no_stranding_without_timers_and_crashes`) with a blocked sender -/
+example : ∃ s, run? (init 1 1 false) [.submit 0 .value, .trySend 0, .load 0, .spawn 0, .send 0] = some s
+    ∧ s.sendq = [(0, 0)] ∧ (step? s (.count 0)).isSome := by
+  refine ⟨_, rfl, ?_⟩; decide
+
+/-- hypotheses of `respawn_after_retirement` are reachable: the worker has retired -/
+example : ∃ s, run? (init 1 1 false)
+    [.submit 0 .value, .trySend 0, .load 0, .spawn 0, .send 0, .count 0, .recv 0, .finish 0, .recv 0,
+     .timeout 0, .exit 0, .reap 0] = some s ∧ s.wrk 0 = .exited ∧ s.disp 0 = .idle ∧ s.sendq = [] ∧ s.counter = 0 := by
   refine ⟨_, rfl, ?_⟩; decide
 
 end Compio.Props.C17
